@@ -91,14 +91,14 @@ type Ctx struct {
 	ViolN    int64
 
 	// current execution, for the watchdog and for panics
-	curSpace *Space
-	curIn    []byte
-	curArgs  map[string]string
-	execs    int64
+	curSpace  *Space
+	curIn     []byte
+	curArgs   map[string]string
+	execs     int64
 	failedNow bool
-	collect  bool // when false (replay/minimise mode) Fail only sets failedNow/lastFail
-	lastFail *Violation
-	fails    map[string]*Violation // non-collect mode: clause|site -> first failure
+	collect   bool // when false (replay/minimise mode) Fail only sets failedNow/lastFail
+	lastFail  *Violation
+	fails     map[string]*Violation // non-collect mode: clause|site -> first failure
 
 	Deadline time.Time
 	tracef   *os.File
@@ -277,9 +277,9 @@ func (c *Ctx) Watchdog(onAbort func()) {
 			last = cur
 			var ms runtime.MemStats
 			runtime.ReadMemStats(&ms)
-			if stuck >= 36 || ms.HeapAlloc > 6<<30 { // 180 s in one execution, or 6 GB heap
+			if stuck >= 150 || ms.HeapAlloc > 6<<30 { // 750 s in one execution, or 6 GB heap
 				clause := "hang"
-				if stuck < 36 {
+				if stuck < 150 {
 					clause = "memory"
 				}
 				c.collect = true
@@ -370,17 +370,17 @@ func (c *Ctx) MinimiseViolation(v *Violation) {
 // ---- worker result ----
 
 type Result struct {
-	Shard    int               `json:"shard"`
-	Counters map[string]int64  `json:"counters"`
-	States   []string          `json:"states"`
-	Trans    []string          `json:"trans"`
-	Obs      []uint64          `json:"obs"`
-	Samples  []string          `json:"samples"`
-	Notes    []string          `json:"notes"`
-	CapsHit  []string          `json:"caps_hit"`
-	Viol     []Violation       `json:"viol"`
-	ViolN    int64             `json:"viol_n"`
-	Done     bool              `json:"done"`
+	Shard    int              `json:"shard"`
+	Counters map[string]int64 `json:"counters"`
+	States   []string         `json:"states"`
+	Trans    []string         `json:"trans"`
+	Obs      []uint64         `json:"obs"`
+	Samples  []string         `json:"samples"`
+	Notes    []string         `json:"notes"`
+	CapsHit  []string         `json:"caps_hit"`
+	Viol     []Violation      `json:"viol"`
+	ViolN    int64            `json:"viol_n"`
+	Done     bool             `json:"done"`
 }
 
 func (c *Ctx) Result(done bool) *Result {
